@@ -27,3 +27,41 @@ func (w *wrapper) Call(ctx context.Context) error {
 	}
 	return err
 }
+
+// Regression for /repo d41329a (known/C19.jsonl `micro/server.go:NewStreamWrapper:option-guards`, kind fixed): the
+// stream wrapper as it was, testing the unary option fields and calling the stream ones.  (`Bad`: must not conform;
+// its IR must differ from the recorded finding `micro/server.go:NewStreamWrapper.func1`, which is only the early Exit.)
+type Stream interface {
+	Send(v interface{}) error
+	Method() string
+}
+type streamOptions struct {
+	serverResourceExtract       func(ctx context.Context) string
+	streamServerResourceExtract func(s Stream) string
+	serverBlockFallback         func(ctx context.Context) error
+	streamServerBlockFallback   func(s Stream, err error) Stream
+}
+
+func evaluate() *streamOptions { return &streamOptions{} }
+
+func BadStreamWrapperGuards() func(stream Stream) Stream {
+	return func(stream Stream) Stream {
+		opts := evaluate()
+		resourceName := stream.Method()
+		if opts.serverResourceExtract != nil {
+			resourceName = opts.streamServerResourceExtract(stream)
+		}
+		entry, blockErr := sentinel.Entry(resourceName)
+		if blockErr != nil {
+			if opts.serverBlockFallback != nil {
+				return opts.streamServerBlockFallback(stream, blockErr)
+			}
+
+			stream.Send(blockErr)
+			return stream
+		}
+
+		entry.Exit()
+		return stream
+	}
+}
